@@ -1,15 +1,18 @@
 //! C06 — replicas converge once updates are delivered.
 //! Part A (correspondence with the Lean cluster model): n real `ShardReplicaState`s, local ops,
 //! arbitrary delivery schedules (reorder, duplicate, drop + redeliver), final full delivery.
-//! Part B (oracle on the command→delta glue, not modelled in Lean): n real
-//! `ReplicatedShardActor`s driven with client commands; after full delivery every replica must
-//! answer reads alike and serve what its replication state says.
-use crate::enc::{hex, key_cmp, MCrdt, MLww, MRv};
+//! Part B (correspondence with the Lean glue model `Model/Glue.lean` + oracle): n real
+//! `ReplicatedShardActor`s driven with client commands and deliveries.  Every step is an op line
+//! for the model (reply, served keyspace, delta / merged value, supported-fragment verdict);
+//! independently the oracle checks that every node serves what its replication state says and
+//! that after full delivery every replica answers reads alike.
+use crate::enc::{hex, key_cmp, unhex, MCrdt, MLww, MRv};
 use crate::out::Out;
 use crate::rng::Rng;
 use crate::Args;
 use redis_sim::production::{ReplicatedShardActor, ReplicatedShardHandle};
-use redis_sim::redis::{Command, RespValue, SDS};
+use crate::redisx::{enc_cmd, reply_order, reply_text, value_text};
+use redis_sim::redis::{Command, RespValue, Value, SDS};
 use redis_sim::replication::lattice::ReplicaId;
 use redis_sim::replication::state::{ReplicationDelta, ShardReplicaState};
 use redis_sim::replication::ConsistencyLevel;
@@ -236,192 +239,676 @@ fn deliver(out: &mut Out, nodes: &mut [ShardReplicaState], sent: &[Msg], log: &m
 }
 
 // ---------------------------------------------------------------------------------------------
-// Part B: the command → delta glue of ReplicatedShardActor (oracle only)
+// Part B: the command → delta glue of ReplicatedShardActor (correspondence + oracle)
 // ---------------------------------------------------------------------------------------------
 
-fn show_reply(r: &RespValue) -> String {
-    match r {
-        RespValue::SimpleString(s) => format!("+{}", s),
-        RespValue::Error(e) => format!("-{}", e.split(' ').next().unwrap_or("")),
-        RespValue::Integer(i) => format!(":{}", i),
-        RespValue::BulkString(None) => "nil".into(),
-        RespValue::BulkString(Some(b)) => format!("${}", hex(b)),
-        RespValue::Array(None) => "nilarr".into(),
-        RespValue::Array(Some(v)) => {
-            let mut xs: Vec<String> = v.iter().map(show_reply).collect();
-            xs.sort(); // HGETALL order is unspecified; pairs are compared as a multiset
-            format!("[{}]", xs.join(","))
-        }
-    }
-}
-
-async fn reads(h: &ReplicatedShardHandle, key: &str) -> String {
-    // (execute_readonly rejects HGETALL/TTL; reads go through the normal path and produce no delta)
-    let g = h.execute(Command::Get(key.to_string())).await.0;
-    let e = h.execute(Command::Exists(vec![key.to_string()])).await.0;
-    let hg = h.execute(Command::HGetAll(key.to_string())).await.0;
-    let t = h.execute(Command::Ttl(key.to_string())).await.0;
-    format!("GET={} EXISTS={} HGETALL={} TTL={}", show_reply(&g), show_reply(&e), show_reply(&hg), show_reply(&t))
-}
-
-/// what the replication state says a client should see (for strings and hashes)
-fn materialise(m: Option<&MRv>) -> String {
-    match m.map(|m| &m.crdt) {
-        Some(MCrdt::Lww(l)) if !l.tomb && l.v.is_some() => format!("str:{}", hex(l.v.as_ref().unwrap())),
-        Some(MCrdt::H(h)) => {
-            let mut fs: Vec<String> = h.iter().filter(|(_, l)| !l.tomb && l.v.is_some()).map(|(f, l)| format!("{}={}", f, hex(l.v.as_ref().unwrap()))).collect();
-            fs.sort();
-            if fs.is_empty() { "absent".into() } else { format!("hash:{}", fs.join(",")) }
-        }
-        _ => "absent".into(),
-    }
-}
-
-fn served(view: &str) -> String {
-    // derive the same summary from the read replies
-    let get = view.split(' ').next().unwrap().trim_start_matches("GET=");
-    let hg = view.split(' ').nth(2).unwrap().trim_start_matches("HGETALL=");
-    if get.starts_with('$') {
-        format!("str:{}", &get[1..])
-    } else if hg.starts_with('[') && hg.len() > 2 {
-        "hash".into()
-    } else {
-        "absent".into()
-    }
-}
-
-#[derive(Clone)]
-struct Scn {
-    sig: &'static str,
-    what: &'static str,
-    cmds: Vec<(usize, Command)>,
-    key: &'static str,
-}
+type Dump = BTreeMap<String, (i64, String)>; // key -> (pttl, value text)
 
 fn s(x: &str) -> SDS {
     SDS::from_str(x)
+}
+
+fn bulk(r: &RespValue) -> Vec<u8> {
+    match r {
+        RespValue::BulkString(Some(b)) => b.clone(),
+        _ => vec![],
+    }
+}
+
+async fn exec(h: &ReplicatedShardHandle, c: Command) -> RespValue {
+    h.execute(c).await.0
+}
+
+/// the served keyspace of one actor, read through its own command interface (reads produce no
+/// delta): KEYS *, TYPE, the value per type, PTTL — in the dump syntax of the C01 driver
+async fn dump(h: &ReplicatedShardHandle) -> (String, Dump) {
+    let mut keys: Vec<String> = match exec(h, Command::Keys("*".into())).await {
+        RespValue::Array(Some(v)) => v.iter().map(|x| String::from_utf8_lossy(&bulk(x)).to_string()).collect(),
+        _ => vec![],
+    };
+    keys.sort_by(|a, b| key_cmp(a, b));
+    let mut m = Dump::new();
+    let mut text = String::new();
+    let mut n = 0;
+    for k in keys {
+        let ty = match exec(h, Command::TypeOf(k.clone())).await {
+            RespValue::SimpleString(t) => t.to_string(),
+            _ => "none".into(),
+        };
+        let v: Option<Value> = match ty.as_str() {
+            "string" => Some(Value::String(SDS::new(bulk(&exec(h, Command::Get(k.clone())).await)))),
+            "hash" => match exec(h, Command::HGetAll(k.clone())).await {
+                RespValue::Array(Some(v)) => {
+                    let mut hv = redis_sim::redis::RedisHash::new();
+                    for c in v.chunks(2) {
+                        if c.len() == 2 {
+                            hv.set(SDS::new(bulk(&c[0])), SDS::new(bulk(&c[1])));
+                        }
+                    }
+                    Some(Value::Hash(hv))
+                }
+                _ => None,
+            },
+            "list" => match exec(h, Command::LRange(k.clone(), 0, -1)).await {
+                RespValue::Array(Some(v)) => {
+                    let mut l = redis_sim::redis::RedisList::new();
+                    for x in v {
+                        l.rpush(SDS::new(bulk(&x)));
+                    }
+                    Some(Value::List(l))
+                }
+                _ => None,
+            },
+            "set" => match exec(h, Command::SMembers(k.clone())).await {
+                RespValue::Array(Some(v)) => {
+                    let mut st = redis_sim::redis::RedisSet::new();
+                    for x in v {
+                        st.add(SDS::new(bulk(&x)));
+                    }
+                    Some(Value::Set(st))
+                }
+                _ => None,
+            },
+            _ => None,
+        };
+        let Some(v) = v else { continue };
+        let pttl = match exec(h, Command::Pttl(k.clone())).await {
+            RespValue::Integer(i) => i,
+            _ => -3,
+        };
+        let vt = value_text(&v);
+        n += 1;
+        text.push_str(&format!(" {} {} {}", hex(k.as_bytes()), pttl, vt));
+        m.insert(k, (pttl, vt));
+    }
+    (format!("{}{}", n, text), m)
+}
+
+/// what the replication state says a client should see: (pttl, value text) or absent
+fn materialise(m: Option<&MRv>) -> Option<(i64, String)> {
+    match m.map(|m| (&m.crdt, m.exp)) {
+        Some((MCrdt::Lww(l), exp)) if !l.tomb && l.v.is_some() => {
+            Some((exp.map(|e| e as i64).unwrap_or(-1), format!("S {}", hex(l.v.as_ref().unwrap()))))
+        }
+        Some((MCrdt::H(h), _)) => {
+            let mut fs: Vec<(Vec<u8>, Vec<u8>)> =
+                h.iter().filter(|(_, l)| !l.tomb && l.v.is_some()).map(|(f, l)| (f.as_bytes().to_vec(), l.v.clone().unwrap())).collect();
+            fs.sort_by(|a, b| (a.0.len(), &a.0).cmp(&(b.0.len(), &b.0)));
+            if fs.is_empty() {
+                None
+            } else {
+                let mut t = format!("H {}", fs.len());
+                for (f, v) in fs {
+                    t.push_str(&format!(" {} {}", hex(&f), hex(&v)));
+                }
+                Some((-1, t))
+            }
+        }
+        _ => None,
+    }
+}
+
+/// readable form of an op text: hex tokens that are printable ASCII are shown as text
+fn pretty(enc: &str) -> String {
+    enc.split(' ')
+        .map(|t| {
+            if let Some(h) = t.strip_prefix('x') {
+                if h.len() % 2 == 0 && h.chars().all(|c| c.is_ascii_hexdigit()) {
+                    let b = unhex(t);
+                    if b.iter().all(|c| (0x21..0x7f).contains(c)) {
+                        return if b.is_empty() { "\"\"".to_string() } else { String::from_utf8_lossy(&b).to_string() };
+                    }
+                }
+            }
+            t.to_string()
+        })
+        .collect::<Vec<_>>()
+        .join(" ")
+}
+
+fn cmd_keys(c: &Command) -> Vec<String> {
+    match c {
+        Command::Del(ks) | Command::Exists(ks) | Command::MGet(ks) => ks.clone(),
+        Command::MSet(kv) | Command::MSetNx(kv) => kv.iter().map(|(k, _)| k.clone()).collect(),
+        Command::Rename(a, b) | Command::RenameNx(a, b) => vec![a.clone(), b.clone()],
+        Command::FlushAll | Command::FlushDb => vec!["*".into()],
+        _ => c.get_primary_key().map(|k| vec![k.to_string()]).unwrap_or_default(),
+    }
+}
+
+/// independent Rust reading of the supported fragment (`Glue.unsupported`, client events):
+/// `pre`/`post` = served keyspace before/after, `snap` = replication state before
+fn unsupported_client(c: &Command, pre: &(String, Dump), post: &(String, Dump), snap: &std::collections::HashMap<String, redis_sim::replication::state::ReplicatedValue>) -> &'static str {
+    let has_ttl = |k: &str| pre.1.get(k).map(|e| e.0 >= 0).unwrap_or(false);
+    match c {
+        Command::Set { key, exat, pxat, keepttl, .. } => {
+            if exat.is_some() || pxat.is_some() || (*keepttl && has_ttl(key)) {
+                "set-expiry-not-recorded"
+            } else {
+                "ok"
+            }
+        }
+        Command::Del(ks) => {
+            if ks.len() >= 2 && ks[..ks.len() - 1].iter().any(|k| snap.contains_key(k)) {
+                "multi-key-del"
+            } else {
+                "ok"
+            }
+        }
+        Command::GetSet(..) | Command::HSet(..) | Command::HDel(..) | Command::HIncrBy(..) => "ok",
+        Command::Incr(k) | Command::Decr(k) | Command::IncrBy(k, _) | Command::DecrBy(k, _) | Command::Append(k, _) => {
+            if has_ttl(k) {
+                "modify-keeps-ttl"
+            } else {
+                "ok"
+            }
+        }
+        _ => {
+            if pre.0 != post.0 {
+                "non-replicated-writer"
+            } else {
+                "ok"
+            }
+        }
+    }
+}
+
+/// … delivery events: `merged` = the key's value in the replication state after the merge
+fn unsupported_deliver(delta: &MRv, merged: Option<&MRv>, pre: &Dump, key: &str) -> &'static str {
+    if !delta.wf() {
+        return "bad-delta";
+    }
+    let Some(m) = merged else { return "ok" };
+    let proper = |l: &MLww| l.tomb || l.v.is_some();
+    match &m.crdt {
+        MCrdt::H(h) => {
+            if !h.values().all(proper) {
+                "bad-delta"
+            } else if pre.get(key).map(|e| !e.1.starts_with("H ")).unwrap_or(false) {
+                "hash-over-non-hash"
+            } else {
+                "ok"
+            }
+        }
+        MCrdt::Lww(l) => {
+            if !proper(l) {
+                "bad-delta"
+            } else if !l.tomb && l.v.is_some() && m.exp.map(|e| e < 1 || e > i64::MAX as u64).unwrap_or(false) {
+                "expiry-range"
+            } else {
+                "ok"
+            }
+        }
+        _ => "bad-delta",
+    }
+}
+
+struct GCl {
+    hs: Vec<ReplicatedShardHandle>,
+    sent: Vec<(usize, ReplicationDelta)>,
+    applied: BTreeSet<(usize, usize)>,
+    hist: Vec<String>,
+    /// unsupported steps: (node, reason, keys touched)
+    bad: Vec<(usize, &'static str, Vec<String>)>,
+    /// nodes on which the per-node oracle already fired (report once per node)
+    fired: BTreeSet<usize>,
+    cmds: usize,
+}
+
+impl GCl {
+    fn new(out: &mut Out, n: usize, causal: bool) -> GCl {
+        let level = if causal { ConsistencyLevel::Causal } else { ConsistencyLevel::Eventual };
+        out.op(format!("GN {} {}", n, causal as u8), "ok".into());
+        GCl {
+            hs: (0..n).map(|i| ReplicatedShardActor::spawn(ReplicaId::new(i as u64 + 1), level, 0)).collect(),
+            sent: Vec::new(),
+            applied: BTreeSet::new(),
+            hist: vec![format!("{} nodes{}", n, if causal { " (causal)" } else { "" })],
+            bad: Vec::new(),
+            fired: BTreeSet::new(),
+            cmds: 0,
+        }
+    }
+
+    fn replay(&self) -> serde_json::Value {
+        json!({"history": self.hist})
+    }
+
+    /// per-node oracle: the node serves (value and TTL) what its replication state says
+    async fn check_served(&mut self, out: &mut Out, i: usize, d: &Dump) {
+        let snap = self.hs[i].get_snapshot().await;
+        let mut keys: BTreeSet<String> = d.keys().cloned().collect();
+        keys.extend(snap.keys().cloned());
+        for k in keys {
+            let want = materialise(snap.get(&k).map(MRv::from_real).as_ref());
+            let have = d.get(&k).cloned();
+            if want != have && self.fired.insert(i) {
+                let why = self.bad.iter().find(|b| b.0 == i).map(|b| b.1);
+                let sig = match why {
+                    Some(r) if r.starts_with("C01:") => r.to_string(),
+                    Some(r) => format!("C06:glue:outside-supported:{}", r),
+                    None => "C06:glue:supported-history-served-differs-from-rs".to_string(),
+                };
+                out.violation(&sig, &format!("node {} serves (pttl, value) {:?} for '{}' but its replication state says {:?}", i, have, k, want), self.replay());
+            }
+        }
+    }
+
+    async fn client(&mut self, out: &mut Out, i: usize, c: Command) -> RespValue {
+        let pre = dump(&self.hs[i]).await;
+        let snap = self.hs[i].get_snapshot().await;
+        let (r, d) = self.hs[i].execute(c.clone()).await;
+        let post = dump(&self.hs[i]).await;
+        let sup = unsupported_client(&c, &pre, &post, &snap);
+        let name = format!("{:?}", c).split(|ch: char| !ch.is_alphanumeric()).next().unwrap_or("").to_string();
+        out.count(&format!("b:cmd:{}", name));
+        out.count(&format!("b:sup:{}", sup));
+        if matches!(r, RespValue::Error(_)) {
+            out.count("b:reply:error");
+        }
+        let enc = enc_cmd(&c, &r).expect("part B generates only commands the model knows");
+        self.hist.push(format!("node{}: {}", i, pretty(&enc)));
+        self.cmds += 1;
+        if sup != "ok" {
+            self.bad.push((i, sup, cmd_keys(&c)));
+        } else if let Command::GetSet(k, _) = &c {
+            // inside the supported fragment of the MODEL (Redis clears the deadline); the real
+            // executor keeps it (C01:getset-keeps-deadline), so the node then serves a TTL its
+            // replication state does not have: that is C01's finding surfacing here
+            if pre.1.get(k).map(|e| e.0 >= 0).unwrap_or(false) && !matches!(r, RespValue::Error(_)) {
+                self.bad.push((i, "C01:getset-keeps-deadline", vec![k.clone()]));
+            }
+        }
+        let dtext = match &d {
+            Some(d) => format!("{} {}", hex(d.key.as_bytes()), MRv::from_real(&d.value).show()),
+            None => "none".into(),
+        };
+        out.op(
+            format!("GC {} {} ;; {}", i, enc, post.0),
+            format!("{} | {} | sup={} delta={}", reply_text(&r, reply_order(&c)), post.0, sup, dtext),
+        );
+        if let Some(d) = d {
+            out.count("b:delta");
+            self.sent.push((i, d));
+        }
+        self.check_served(out, i, &post.1).await;
+        r
+    }
+
+    async fn deliver(&mut self, out: &mut Out, j: usize, idx: usize) {
+        if self.sent[idx].0 == j {
+            return;
+        }
+        let pre = dump(&self.hs[j]).await;
+        let d = self.sent[idx].1.clone();
+        self.hs[j].apply_remote_delta(d.clone());
+        let snap = self.hs[j].get_snapshot().await;
+        let post = dump(&self.hs[j]).await;
+        let merged = snap.get(&d.key).map(MRv::from_real);
+        let sup = unsupported_deliver(&MRv::from_real(&d.value), merged.as_ref(), &pre.1, &d.key);
+        out.count("b:deliver");
+        out.count(&format!("b:sup:{}", sup));
+        self.applied.insert((j, idx));
+        self.hist.push(format!("deliver delta#{} ('{}' from node{}) to node{}", idx, d.key, self.sent[idx].0, j));
+        if sup != "ok" {
+            self.bad.push((j, sup, vec![d.key.clone()]));
+        }
+        out.op(
+            format!("GV {} {} ;; {}", j, idx, post.0),
+            format!("{} | {} | sup={}", merged.map(|m| m.show()).unwrap_or("none".into()), post.0, sup),
+        );
+        self.check_served(out, j, &post.1).await;
+    }
+
+    /// a crafted delta that no node issued (boundary of the supported fragment)
+    async fn crafted(&mut self, out: &mut Out, j: usize, key: &str, v: &MRv) {
+        let pre = dump(&self.hs[j]).await;
+        self.hs[j].apply_remote_delta(ReplicationDelta::new(key.to_string(), v.to_real(), ReplicaId::new(v.r)));
+        let snap = self.hs[j].get_snapshot().await;
+        let post = dump(&self.hs[j]).await;
+        let merged = snap.get(key).map(MRv::from_real);
+        let sup = unsupported_deliver(v, merged.as_ref(), &pre.1, key);
+        out.count("b:crafted-delta");
+        out.count(&format!("b:sup:{}", sup));
+        self.hist.push(format!("deliver crafted delta '{}' = {} to node{}", key, v.show(), j));
+        if sup != "ok" {
+            self.bad.push((j, sup, vec![key.to_string()]));
+        }
+        out.op(
+            format!("GX {} {} {} ;; {}", j, hex(key.as_bytes()), v.show(), post.0),
+            format!("{} | {} | sup={}", merged.map(|m| m.show()).unwrap_or("none".into()), post.0, sup),
+        );
+        self.check_served(out, j, &post.1).await;
+    }
+
+    /// `ApplyRecoveredState` (checkpoint value into the actor)
+    async fn recover(&mut self, out: &mut Out, j: usize, key: &str, v: &MRv) {
+        let fresh = !self.hs[j].get_snapshot().await.contains_key(key);
+        self.hs[j].apply_recovered_state(key.to_string(), v.to_real());
+        let post = dump(&self.hs[j]).await;
+        out.count("b:recovered");
+        self.hist.push(format!("recover '{}' = {} into node{}", key, v.show(), j));
+        if !fresh {
+            self.bad.push((j, "recover-over-existing", vec![key.to_string()]));
+        }
+        out.op(
+            format!("GR {} {} {} ;; {}", j, hex(key.as_bytes()), v.show(), post.0),
+            format!("fresh={} | {} | -", fresh as u8, post.0),
+        );
+        self.check_served(out, j, &post.1).await;
+    }
+
+    async fn deliver_all(&mut self, out: &mut Out, rng: Option<&mut Rng>) {
+        let mut todo: Vec<(usize, usize)> = Vec::new();
+        for (idx, (o, _)) in self.sent.iter().enumerate() {
+            for j in 0..self.hs.len() {
+                if j != *o && !self.applied.contains(&(j, idx)) {
+                    todo.push((j, idx));
+                }
+            }
+        }
+        if let Some(r) = rng {
+            r.shuffle(&mut todo);
+            let extra: Vec<(usize, usize)> = todo.iter().filter(|_| r.chance(1, 5)).cloned().collect();
+            todo.extend(extra);
+        }
+        for (j, idx) in todo {
+            self.deliver(out, j, idx).await;
+        }
+    }
+
+    /// final observation: state lines, client reads on every node (through the model too), the
+    /// cluster verdicts per key, and the convergence oracle
+    async fn finish(self, out: &mut Out, keys: &[&str]) -> bool {
+        let n = self.hs.len();
+        let mut dumps: Vec<Dump> = Vec::new();
+        for i in 0..n {
+            let snap = self.hs[i].get_snapshot().await;
+            let mut v: Vec<(String, MRv)> = snap.iter().map(|(k, v)| (k.clone(), MRv::from_real(v))).collect();
+            v.sort_by(|a, b| key_cmp(&a.0, &b.0));
+            let mut st = v.len().to_string();
+            for (k, m) in &v {
+                st.push_str(&format!(" {} {} ;", hex(k.as_bytes()), m.show()));
+            }
+            let d = dump(&self.hs[i]).await;
+            let mut ks: BTreeSet<String> = d.1.keys().cloned().collect();
+            ks.extend(snap.keys().cloned());
+            let ok = ks.iter().all(|k| materialise(snap.get(k).map(MRv::from_real).as_ref()) == d.1.get(k).cloned());
+            out.op(format!("GS {}", i), format!("{} | {} | served={}", st, d.0, ok as u8));
+            dumps.push(d.1);
+        }
+        let mut bad_any = !self.fired.is_empty();
+        for key in keys {
+            // client reads, as commands (TTL's rounding is the executor's business: C01)
+            for i in 0..n {
+                for c in [Command::Get(key.to_string()), Command::Exists(vec![key.to_string()]), Command::HGetAll(key.to_string()), Command::Ttl(key.to_string())] {
+                    let (r, _) = self.hs[i].execute(c.clone()).await;
+                    let d = dump(&self.hs[i]).await;
+                    out.op(
+                        format!("GC {} {} ;; {}", i, enc_cmd(&c, &r).unwrap(), d.0),
+                        format!("{} | {} | sup=ok delta=none", reply_text(&r, reply_order(&c)), d.0),
+                    );
+                }
+            }
+            let msgs: Vec<(usize, &(usize, ReplicationDelta))> = self.sent.iter().enumerate().filter(|(_, m)| m.1.key == *key).collect();
+            let delivered = msgs.iter().all(|(_, m)| {
+                let mv = MRv::from_real(&m.1.value);
+                (0..n).all(|j| j == m.0 || msgs.iter().any(|(idx2, m2)| m2.0 != j && self.applied.contains(&(j, *idx2)) && MRv::from_real(&m2.1.value) == mv))
+            });
+            let kinds: BTreeSet<u8> = msgs.iter().map(|(_, m)| MRv::from_real(&m.1.value).crdt.kind()).collect();
+            let kind = match kinds.len() {
+                0 => "0".to_string(),
+                1 => kinds.iter().next().unwrap().to_string(),
+                _ => "-".to_string(),
+            };
+            let mut vals: Vec<Option<MRv>> = Vec::new();
+            for h in &self.hs {
+                vals.push(h.get_snapshot().await.get(*key).map(MRv::from_real));
+            }
+            let agree = vals.iter().all(|v| v.as_ref().map(strip) == vals[0].as_ref().map(strip));
+            let val = |d: &Dump| d.get(*key).map(|e| e.1.clone());
+            let reads = dumps.iter().all(|d| val(d) == val(&dumps[0]));
+            let ttls = dumps.iter().all(|d| d.get(*key).map(|e| e.0) == dumps[0].get(*key).map(|e| e.0));
+            out.op(
+                format!("GK {}", hex(key.as_bytes())),
+                format!("delivered={} kind={} agree={} reads={}", delivered as u8, kind, agree as u8, reads as u8),
+            );
+            out.count(&format!("b:key:delivered={},kind={},reads={}", delivered as u8, if kinds.len() <= 1 { "stable" } else { "mixed" }, reads as u8));
+            if delivered && (!reads || !ttls) {
+                bad_any = true;
+                let why = self.bad.iter().find(|b| b.2.iter().any(|k| k == key || k == "*")).map(|b| b.1);
+                let served: Vec<Option<(i64, String)>> = dumps.iter().map(|d| d.get(*key).cloned()).collect();
+                let (sig, what) = if !reads {
+                    match why {
+                        Some(r) if r.starts_with("C01:") => (r.to_string(), "conformance defect of the executor"),
+                        Some(r) => (format!("C06:glue:outside-supported:{}", r), "outside the supported fragment; replicas diverge"),
+                        None if kinds.len() > 1 => ("C06:cross-kind-order".to_string(), "type change on the key: delivery order decides"),
+                        None => ("C06:glue:supported-history-diverges".to_string(), "supported history"),
+                    }
+                } else {
+                    match why {
+                        Some(r) if r.starts_with("C01:") => (r.to_string(), "conformance defect of the executor"),
+                        Some(r) => (format!("C06:glue:outside-supported:{}", r), "outside the supported fragment; TTLs diverge"),
+                        None => ("C06:glue:set-without-expiry-cannot-clear-remote-ttl".to_string(), "expiry merged by max / Some-wins on the receiver, overwritten on the writer"),
+                    }
+                };
+                out.violation(&sig, &format!("{} — after all deltas of '{}' were delivered the replicas serve (pttl, value) {:?}", what, key, served), self.replay());
+            }
+        }
+        for h in &self.hs {
+            h.shutdown().await;
+        }
+        bad_any
+    }
 }
 
 fn set_opts(key: &str, v: &str, nx: bool, xx: bool, ex: Option<i64>, px: Option<i64>) -> Command {
     Command::Set { key: key.into(), value: s(v), ex, px, exat: None, pxat: None, nx, xx, get: false, keepttl: false }
 }
 
-fn scenarios() -> Vec<Scn> {
+fn hset1(k: &str, f: &str, v: &str) -> Command {
+    Command::HSet(k.into(), vec![(s(f), s(v))])
+}
+
+enum St {
+    C(usize, Command),
+    /// deliver everything outstanding, in issue order
+    Sync,
+    /// deliver delta #idx to node j
+    V(usize, usize),
+    X(usize, &'static str, MRv),
+    /// ApplyRecoveredState on node j
+    R(usize, &'static str, MRv),
+}
+
+fn hash_rv(fields: &[(&str, Option<&str>, u64)], r: u64) -> MRv {
+    let t = fields.iter().map(|f| f.2).max().unwrap_or(0);
+    MRv {
+        crdt: MCrdt::H(fields.iter().map(|(f, v, t)| (f.to_string(), MLww { v: v.map(|x| x.as_bytes().to_vec()), t: *t, r, tomb: v.is_none() })).collect()),
+        vc: None,
+        exp: None,
+        t,
+        r,
+        rf: None,
+    }
+}
+
+fn lww_rv(v: Option<&str>, t: u64, r: u64, tomb: bool, exp: Option<u64>) -> MRv {
+    MRv { crdt: MCrdt::Lww(MLww { v: v.map(|x| x.as_bytes().to_vec()), t, r, tomb }), vc: None, exp, t, r, rf: None }
+}
+
+/// fixed scenarios, run first on every run: the six historical glue defects (three repaired, they
+/// must now converge), one witness per excluded class of the supported fragment (the Lean
+/// `…_counterexample` theorems, replayed on the real actors), and the shapes that a stale-delta
+/// shortcut in `apply_remote_delta_impl` would break
+fn scenarios() -> Vec<(&'static str, usize, Vec<St>, Vec<&'static str>)> {
+    use St::*;
     vec![
-        Scn { sig: "C06:glue:set-nx-rejected-still-gossiped", what: "SET x first; SET x second NX on node 0: node 0 keeps 'first', peers get 'second'", key: "x",
-              cmds: vec![(0, Command::set("x".into(), s("first"))), (0, set_opts("x", "second", true, false, None, None))] },
-        Scn { sig: "C06:glue:del-of-hash-not-replicated", what: "HSET h f 1; DEL h on node 0: node 0 has no h, peers keep {f:1}", key: "h",
-              cmds: vec![(0, Command::HSet("h".into(), vec![(s("f"), s("1"))])), (0, Command::del("h".into()))] },
-        Scn { sig: "C06:glue:px-subsecond-dropped-remotely", what: "SET p v PX 500 on node 0: shipped as SETEX 0 which the receiver rejects", key: "p",
-              cmds: vec![(0, set_opts("p", "v", false, false, None, Some(500)))] },
-        Scn { sig: "C06:glue:hset-on-string-turns-rs-into-hash", what: "SET k v; HSET k f 1 (WRONGTYPE locally) on node 0: replication state becomes a hash, executor keeps the string", key: "k",
-              cmds: vec![(0, Command::set("k".into(), s("v"))), (0, Command::HSet("k".into(), vec![(s("f"), s("1"))]))] },
-        Scn { sig: "C06:glue:del-then-hset-resurrects-fields", what: "HSET h f 1; HDEL h f; DEL h; HSET h g 2 … fields deleted with the key come back remotely", key: "h",
-              cmds: vec![(0, Command::HSet("h".into(), vec![(s("f"), s("1"))])), (0, Command::del("h".into())), (0, Command::HSet("h".into(), vec![(s("g"), s("2"))]))] },
-        Scn { sig: "C06:glue:set-without-expiry-cannot-clear-remote-ttl", what: "SET e v EX 100; SET e w on node 0: peers keep the TTL (expiry merged by max)", key: "e",
-              cmds: vec![(0, set_opts("e", "v", false, false, Some(100), None)), (0, Command::set("e".into(), s("w")))] },
+        ("set-nx-rejected", 2, vec![C(0, Command::set("x".into(), s("first"))), C(0, set_opts("x", "second", true, false, None, None)), Sync], vec!["x"]),
+        ("del-of-hash", 2, vec![C(0, hset1("h", "f", "1")), Sync, C(0, Command::del("h".into())), Sync], vec!["h"]),
+        ("px-subsecond", 2, vec![C(0, set_opts("p", "v", false, false, None, Some(500))), Sync], vec!["p"]),
+        ("hset-on-string", 2, vec![C(0, Command::set("k".into(), s("v"))), C(0, hset1("k", "f", "1")), Sync], vec!["k"]),
+        ("del-then-hset", 2, vec![C(0, hset1("h", "f", "1")), C(0, Command::del("h".into())), C(0, hset1("h", "g", "2")), Sync], vec!["h"]),
+        ("set-clears-ttl", 2, vec![C(0, set_opts("e", "v", false, false, Some(100), None)), C(0, Command::set("e".into(), s("w"))), Sync], vec!["e"]),
+        // excluded classes
+        ("x:non-replicated-writer", 2, vec![C(0, Command::MSet(vec![("m".into(), s("w"))])), Sync], vec!["m"]),
+        ("x:set-pxat", 2, vec![C(0, Command::Set { key: "a".into(), value: s("v"), ex: None, px: None, exat: None, pxat: Some(5000), nx: false, xx: false, get: false, keepttl: false }), Sync], vec!["a"]),
+        ("x:set-keepttl", 2, vec![C(0, set_opts("a", "v", false, false, Some(100), None)), C(0, Command::Set { key: "a".into(), value: s("w"), ex: None, px: None, exat: None, pxat: None, nx: false, xx: false, get: false, keepttl: true }), Sync], vec!["a"]),
+        ("x:incr-with-ttl", 2, vec![C(0, set_opts("c", "5", false, false, Some(100), None)), C(0, Command::Incr("c".into())), Sync], vec!["c"]),
+        ("x:hash-over-string", 2, vec![C(0, Command::set("x".into(), s("v"))), C(1, hset1("x", "f", "1")), Sync], vec!["x"]),
+        ("x:expiry-zero", 2, vec![X(0, "z", lww_rv(Some("v"), 5, 9, false, Some(0)))], vec!["z"]),
+        ("x:empty-register", 2, vec![C(0, Command::set("z".into(), s("v"))), X(0, "z", lww_rv(None, 5, 9, false, None))], vec!["z"]),
+        ("x:multi-key-del", 2, vec![C(0, Command::set("a".into(), s("1"))), C(0, Command::set("b".into(), s("2"))), Sync, C(0, Command::Del(vec!["a".into(), "b".into()])), Sync], vec!["a", "b"]),
+        // ApplyRecoveredState: a checkpoint into a fresh actor, then normal traffic
+        ("recover-checkpoint", 2, vec![
+            R(0, "a", lww_rv(Some("v"), 4, 2, false, Some(5000))), R(0, "h", hash_rv(&[("f", Some("1"), 1), ("g", None, 2)], 2)),
+            R(0, "b", lww_rv(None, 30, 2, true, None)), R(0, "c", lww_rv(Some("7"), 3, 1, false, None)),
+            // the peer recovers the same checkpoint (recovered state is not gossiped)
+            R(1, "a", lww_rv(Some("v"), 4, 2, false, Some(5000))), R(1, "h", hash_rv(&[("f", Some("1"), 1), ("g", None, 2)], 2)),
+            R(1, "b", lww_rv(None, 30, 2, true, None)), R(1, "c", lww_rv(Some("7"), 3, 1, false, None)),
+            C(0, Command::Incr("c".into())), C(0, hset1("h", "g", "3")), C(0, Command::set("b".into(), s("w"))), Sync], vec!["a", "b", "c", "h"]),
+        ("x:recover-over-existing", 2, vec![C(0, Command::set("a".into(), s("v"))), R(0, "a", lww_rv(None, 30, 2, true, None))], vec!["a"]),
+        // stale / reordered deltas must still be re-materialised
+        ("concurrent-hash-fields", 2, vec![C(0, hset1("h", "f", "1")), C(1, hset1("h", "g", "2")), Sync], vec!["h"]),
+        ("reordered-to-third", 3, vec![C(0, Command::set("s".into(), s("1"))), C(0, Command::set("s".into(), s("2"))), V(1, 1), V(1, 0), V(2, 0), V(2, 1), V(2, 0)], vec!["s"]),
+        ("hash-del-reordered", 3, vec![C(0, hset1("h", "f", "1")), C(0, Command::HDel("h".into(), vec![s("f")])), C(1, hset1("h", "g", "2")), V(2, 1), V(2, 0), V(2, 2), Sync], vec!["h"]),
     ]
 }
 
-async fn run_cluster(n: usize, cmds: &[(usize, Command)], order_seed: Option<&mut Rng>, keys: &[&str]) -> Vec<(String, Vec<String>, Vec<String>)> {
-    let hs: Vec<ReplicatedShardHandle> = (0..n).map(|i| ReplicatedShardActor::spawn(ReplicaId::new(i as u64 + 1), ConsistencyLevel::Eventual, 0)).collect();
-    let mut deltas: Vec<(usize, ReplicationDelta)> = Vec::new();
-    for (i, c) in cmds {
-        let (_r, d) = hs[*i].execute(c.clone()).await;
-        if let Some(d) = d {
-            deltas.push((*i, d));
-        }
+const SKEYS: [&str; 3] = ["s", "t", "x"];
+const HKEYS: [&str; 2] = ["hh", "x"];
+
+fn sval(rng: &mut Rng) -> String {
+    match rng.below(8) {
+        0 => "".into(),
+        1 => format!("v{}", rng.below(9)),
+        2 => "9223372036854775807".into(),
+        3 => format!("-{}", rng.range(1, 99)),
+        _ => format!("{}", rng.below(100)),
     }
-    let mut sched: Vec<(usize, usize)> = Vec::new();
-    for (idx, (o, _)) in deltas.iter().enumerate() {
-        for j in 0..n {
-            if j != *o {
-                sched.push((j, idx));
-            }
-        }
-    }
-    if let Some(r) = order_seed {
-        r.shuffle(&mut sched);
-        // some duplicates
-        let extra: Vec<(usize, usize)> = sched.iter().filter(|_| r.chance(1, 4)).cloned().collect();
-        sched.extend(extra);
-    }
-    for (j, idx) in sched {
-        hs[j].apply_remote_delta(deltas[idx].1.clone());
-    }
-    let mut res = Vec::new();
-    for k in keys {
-        let mut views = Vec::new();
-        let mut rss = Vec::new();
-        for h in &hs {
-            views.push(reads(h, k).await);
-            let snap = h.get_snapshot().await;
-            rss.push(materialise(snap.get(*k).map(MRv::from_real).as_ref()));
-        }
-        res.push((k.to_string(), views, rss));
-    }
-    for h in &hs {
-        h.shutdown().await;
-    }
-    res
 }
 
-fn judge(out: &mut Out, sig_div: &str, sig_srv: &str, what: &str, res: &[(String, Vec<String>, Vec<String>)], replay: serde_json::Value) -> bool {
-    let mut bad = false;
-    for (k, views, rss) in res {
-        if views.iter().any(|v| *v != views[0]) {
-            out.violation(sig_div, &format!("{} — replicas answer reads on '{}' differently after all deltas were delivered: {:?}", what, k, views), replay.clone());
-            bad = true;
-        }
-        for (i, v) in views.iter().enumerate() {
-            let sv = served(v);
-            let rs = &rss[i];
-            let same = if sv == "hash" { rs.starts_with("hash:") } else { sv == *rs };
-            if !same {
-                out.violation(sig_srv, &format!("{} — node {} serves {} for '{}' but its replication state says {}", what, i, v, k, rs), replay.clone());
-                bad = true;
-                break;
+fn gen_cmd(rng: &mut Rng) -> Command {
+    let sk = rng.pick(&SKEYS).to_string();
+    let hk = rng.pick(&HKEYS).to_string();
+    let fld = |rng: &mut Rng| s(*rng.pick(&FIELDS));
+    match rng.below(40) {
+        0..=4 => Command::set(sk, s(&sval(rng))),
+        5..=10 => {
+            // SET with options: NX | XX, GET, one of EX / PX / KEEPTTL / (rarely) EXAT / PXAT
+            let mut c = Command::set(sk, s(&sval(rng)));
+            if let Command::Set { ex, px, exat, pxat, nx, xx, get, keepttl, .. } = &mut c {
+                match rng.below(12) {
+                    0 | 1 => *ex = Some(*rng.pick(&[1, 100, 100, 0, -1])),
+                    2..=4 => *px = Some(*rng.pick(&[1, 500, 1400, 1500, 100000, 0])),
+                    5 | 6 => *keepttl = true,
+                    7 => *exat = Some(*rng.pick(&[50, 0])),
+                    8 => *pxat = Some(*rng.pick(&[50000, -1])),
+                    _ => {}
+                }
+                match rng.below(5) {
+                    0 => *nx = true,
+                    1 => *xx = true,
+                    _ => {}
+                }
+                *get = rng.chance(1, 4);
             }
+            c
         }
+        11 => Command::GetSet(sk, s(&sval(rng))),
+        12 => Command::Incr(sk),
+        13 => Command::Decr(sk),
+        14 | 15 => Command::IncrBy(sk, *rng.pick(&[5, -7, 1, i64::MAX, i64::MIN])),
+        16 => Command::DecrBy(sk, *rng.pick(&[5, -7, i64::MIN])),
+        17 | 18 => Command::Append(sk, s(&sval(rng))),
+        19..=21 => Command::del(if rng.chance(1, 4) { hk } else { sk }),
+        22 | 23 => Command::Del((0..rng.range(2, 3)).map(|_| if rng.chance(1, 3) { rng.pick(&HKEYS).to_string() } else { rng.pick(&SKEYS).to_string() }).collect()),
+        24..=28 => Command::HSet(hk, (0..rng.range(1, 2)).map(|_| (fld(rng), s(&sval(rng)))).collect()),
+        29..=31 => Command::HDel(hk, (0..rng.range(1, 2)).map(|_| fld(rng)).collect()),
+        32..=34 => Command::HIncrBy(hk, fld(rng), *rng.pick(&[1, -3, 10, i64::MAX])),
+        35 => Command::Get(sk),
+        36 => Command::HGetAll(hk),
+        // writers the recorder ignores (outside the property's command list): boundary probes
+        _ => match rng.below(10) {
+            0 | 1 => Command::MSet((0..rng.range(1, 2)).map(|_| (rng.pick(&SKEYS).to_string(), s(&sval(rng)))).collect()),
+            2 => Command::SetNx(sk, s(&sval(rng))),
+            3 => Command::GetDel(sk),
+            4 => Command::Expire { key: sk, seconds: 100, nx: false, xx: false, gt: false, lt: false },
+            5 => Command::Persist(sk),
+            6 => Command::Rename(sk, rng.pick(&SKEYS).to_string()),
+            7 => Command::RPush(sk, vec![s("e")]),
+            8 => Command::MSetNx(vec![(sk, s(&sval(rng)))]),
+            _ => Command::FlushAll,
+        },
     }
-    bad
 }
 
 async fn part_b(out: &mut Out, rng: &mut Rng, n_random: u64) {
-    // fixed scenarios first (known findings must re-confirm; a fixed one simply stops firing)
-    for sc in scenarios() {
-        let res = run_cluster(2, &sc.cmds, None, &[sc.key]).await;
-        out.count("b:scenario");
-        let replay = json!({"scenario": sc.sig, "commands": sc.cmds.iter().map(|(i, c)| format!("node{}: {:?}", i, c)).collect::<Vec<_>>()});
-        let bad = judge(out, sc.sig, sc.sig, sc.what, &res, replay);
-        out.count(if bad { "b:scenario-diverges" } else { "b:scenario-converges" });
-    }
-    // random supported histories: no divergence is acceptable here
-    for _ in 0..n_random {
-        let n = rng.range(2, 3) as usize;
-        let mut cmds: Vec<(usize, Command)> = Vec::new();
-        // key roles are fixed so that a key never changes type and strings with TTL are only SET
-        for _ in 0..rng.range(1, 8) {
-            let i = rng.below(n as u64) as usize;
-            let c = match rng.below(8) {
-                0 | 1 => Command::set("s".into(), s(&format!("{}", rng.below(100)))),
-                2 => Command::Incr("s".into()),
-                3 => Command::Append("s".into(), s("7")),
-                4 => Command::del("s".into()),
-                5 => Command::HSet("hh".into(), vec![(s(*rng.pick(&FIELDS)), s(&format!("{}", rng.below(9))))]),
-                6 => Command::HDel("hh".into(), vec![s(*rng.pick(&FIELDS))]),
-                _ => set_opts("t", &format!("{}", rng.below(100)), false, false, Some(100), None),
-            };
-            out.count(&format!("b:cmd:{}", format!("{:?}", c).split(|ch: char| !ch.is_alphanumeric()).next().unwrap_or("")));
-            cmds.push((i, c));
+    for (name, n, steps, keys) in scenarios() {
+        let mut cl = GCl::new(out, n, false);
+        for st in steps {
+            match st {
+                St::C(i, c) => {
+                    cl.client(out, i, c).await;
+                }
+                St::Sync => cl.deliver_all(out, None).await,
+                St::V(j, idx) => cl.deliver(out, j, idx).await,
+                St::X(j, k, v) => cl.crafted(out, j, k, &v).await,
+                St::R(j, k, v) => cl.recover(out, j, k, &v).await,
+            }
         }
-        // concurrent writers on one key are legitimate; INCR/APPEND on different nodes race by
-        // design (LWW of the resulting strings) and still converge
-        let mut r2 = rng.fork();
-        let res = run_cluster(n, &cmds, Some(&mut r2), &["s", "hh", "t"]).await;
-        let replay = json!({"nodes": n, "commands": cmds.iter().map(|(i, c)| format!("node{}: {:?}", i, c)).collect::<Vec<_>>()});
-        judge(out, "C06:glue:supported-history-diverges", "C06:glue:supported-history-served-differs-from-rs", "supported history", &res, replay);
+        let text = cl.hist.join("; ");
+        let bad = cl.finish(out, &keys).await;
+        out.count(&format!("b:scenario:{}:{}", name, if bad { "fails" } else { "holds" }));
+        out.case(&format!("B:{}", text), true);
+    }
+    for _ in 0..n_random {
+        let mut r = rng.fork();
+        let n = r.range(2, 3) as usize;
+        let mut cl = GCl::new(out, n, r.chance(1, 6));
+        // a history is either "clean" (recorded commands only) or carries boundary probes
+        let probes = r.chance(1, 3);
+        let steps = r.range(2, 10);
+        for _ in 0..steps {
+            if !cl.sent.is_empty() && r.chance(1, 3) {
+                let idx = r.below(cl.sent.len() as u64) as usize;
+                let j = r.below(n as u64) as usize;
+                cl.deliver(out, j, idx).await;
+                continue;
+            }
+            let i = r.below(n as u64) as usize;
+            let mut c = gen_cmd(&mut r);
+            if !probes {
+                while unsupported_syntactic(&c) {
+                    c = gen_cmd(&mut r);
+                }
+            }
+            cl.client(out, i, c).await;
+        }
+        let complete = r.chance(5, 6);
+        if complete {
+            cl.deliver_all(out, Some(&mut r)).await;
+        }
+        let text = cl.hist.join("; ");
+        let nontrivial = cl.sent.len() >= 2 && complete;
+        if out.samples.len() < 5 {
+            out.sample(json!({"glue-history": cl.hist}));
+        }
+        out.count(if cl.bad.is_empty() { "b:history:supported" } else { "b:history:with-unsupported-step" });
+        cl.finish(out, &["s", "t", "x", "hh"]).await;
         out.count("b:random-history");
+        out.case(&format!("B:{}", text), nontrivial);
+    }
+}
+
+/// commands that are outside the supported fragment whatever the state (used to keep two thirds
+/// of the random histories inside it)
+fn unsupported_syntactic(c: &Command) -> bool {
+    match c {
+        Command::Set { exat, pxat, .. } => exat.is_some() || pxat.is_some(),
+        Command::MSet(_) | Command::SetNx(..) | Command::GetDel(_) | Command::Expire { .. } | Command::Persist(_) | Command::Rename(..) | Command::RPush(..) | Command::MSetNx(_) | Command::FlushAll => true,
+        Command::Del(ks) => ks.len() > 1,
+        _ => false,
     }
 }
 
@@ -435,7 +922,7 @@ pub fn run(a: &Args) {
         part_a(&mut out, &mut r, None);
     }
     let rt = tokio::runtime::Builder::new_current_thread().enable_all().build().unwrap();
-    let nb = (a.n / 4).max(20);
+    let nb = (a.n * 2).max(40);
     rt.block_on(part_b(&mut out, &mut rng, nb));
-    out.finish("case (part A) = one cluster history: 2..4 real ShardReplicaStates, 4..40 events (local SET[PX]/DEL/HSET/HDEL on 3 colliding keys; deliveries of arbitrary earlier deltas to arbitrary nodes incl. duplicates), then usually delivery of everything missing in random order; per key the flags delivered/compat/agree/agreeexp are compared with the model; distinct by history text; non-trivial iff some key has ≥ 2 deltas and is fully delivered. Part B (oracle only): 6 fixed glue scenarios + random supported command histories on real ReplicatedShardActors");
+    out.finish("case (part A) = one cluster history: 2..4 real ShardReplicaStates, 4..40 events (local SET[PX]/DEL/HSET/HDEL on 3 colliding keys; deliveries of arbitrary earlier deltas to arbitrary nodes incl. duplicates), then usually delivery of everything missing in random order; per key the flags delivered/compat/agree/agreeexp are compared with the model; non-trivial iff some key has ≥ 2 deltas and is fully delivered. Case (part B) = one history on 2..3 real ReplicatedShardActors: 2..10 client commands (SET with NX/XX/GET/EX/PX/KEEPTTL/EXAT/PXAT, GETSET, INCR/DECR/INCRBY/DECRBY, APPEND, DEL of 1..3 keys, HSET/HDEL/HINCRBY, on keys shared between string and hash commands; one third of the histories also MSET/SETNX/GETDEL/EXPIRE/PERSIST/RENAME/RPUSH/MSETNX/FLUSHALL) interleaved with deliveries of arbitrary earlier deltas, then usually delivery of everything missing in random order with duplicates; every step is compared with the Lean glue model (reply, served keyspace, delta / merged value, supported-fragment verdict), then GET/EXISTS/HGETALL/TTL on every node and the per-key flags delivered/kind/agree/reads; non-trivial iff ≥ 2 deltas and complete delivery; plus 19 fixed scenarios. Distinct by history text");
 }
